@@ -143,3 +143,36 @@ SPEC_ENTRY = {'title': 'Config-space access is bounds-checked and multi-field re
               '  exists tr, read_consistent 3 TModern p d sc = Some (Ok [0x200000002], mkDev (img 2) 0, [], tr) /\\\n'
               '             eval p (img 2) = Ok [0x200000002] /\\ eval p (img 1) = Ok [0x100000001].\n'
               'Proof. exact read_consistent_untorn_nonvacuous. Qed.']}
+
+
+# ---------------------------------------------------------------------------------------------------------------------
+# appended: configuration access of the x86-64 pKVM hypercall PCI transport (HypPciTransport::read_config_space /
+# write_config_space): Model/HypPci.v, Proofs/HypPciProofs.v.  Its modules are imported BEFORE Model.Config so that the
+# names of the existing statements keep their meaning.
+PROPS_ENTRY['models'] += ['Model/HypPci.v']
+PROPS_ENTRY['trusted_extra'] = [x for x in PROPS_ENTRY['trusted_extra'] if not x.startswith('not executed: the x86-64')] + ['x86-64 hypercall transport (C13_hyp_*): read_config_space / write_config_space of HypPciTransport run on the real code with hyp_io_read / '
+ 'hyp_io_write served by the back end registered through src/verif.rs (corpus/proposals/hyp_hook.diff); ONE hypercall of size_of::<T>() bytes per '
+ 'access (no splitting), guarded by the two assertions of HypIoRegion; read_consistent over the hypercall transport is not separately exercised (it '
+ 'is the provided trait method; read_config_generation is C11_hyp_generation)']
+PROPS_ENTRY['assumptions'] += ['x86-64 hypercall transport: offsets are usize (< 2^64); the device-specific region lies inside the physical address space (paddr + size <= 2^64, '
+ 'size < 2^64: every region HypPciTransport::new builds from a well-formed BAR, C11_hyp_windows); a zero-sized T at offset = size of a region ending '
+ 'exactly at 2^64 is excluded (cfg_fits)']
+SPEC_ENTRY['imports'] = ['Model.PciBus', 'Model.Pci', 'Model.PciSpec', 'Model.HypPci', 'Proofs.PciProofs', 'Proofs.HypPciProofs'] + SPEC_ENTRY['imports']
+SPEC_ENTRY['theorems'] += [('C13_hyp_bounds_read',
+  'Proofs/HypPciProofs.v',
+  'hyp_cfg_read_complete',
+  'x86-64 hypercall transport, read_config_space::<T>, every offset < 2^64, size, alignment, region, both profiles: Ok iff offset + size <= region '
+  'size AS NATURAL NUMBERS (no wrap), then exactly ONE read hypercall of size bytes at paddr + offset; else ConfigSpaceTooSmall / ConfigSpaceMissing '
+  'with NO hypercall; panics only for the documented assertions (align_of > 4, misaligned offset, size_of > 8), before any hypercall'),
+ ('C13_hyp_bounds_write', 'Proofs/HypPciProofs.v', 'hyp_cfg_write_complete', None),
+ ('C13_hyp_bounds',
+  'Proofs/HypPciProofs.v',
+  'hyp_cfg_bounds',
+  'the property in its own words: succeeds only if wholly inside, touching exactly the bytes [offset, offset + size) of the region; otherwise the '
+  'error and no hypercall; inside + aligned + at most eight bytes does succeed'),
+ ('C13_hyp_missing', 'Proofs/HypPciProofs.v', 'hyp_cfg_missing', None),
+ ('C13_hyp_conforms',
+  'Proofs/HypPciProofs.v',
+  'hyp_cfg_conforms',
+  'the monitor hyp_cfg_conform_b (kind 1362, evaluated on the implementation) holds of the model'),
+ ('C13_hyp_nonvacuous', 'Proofs/HypPciProofs.v', 'hyp_cfg_nonvacuous', None)]
